@@ -55,9 +55,19 @@ type GroupCfg struct {
 	N      int    `json:"members"`
 	Active []bool `json:"active"`
 	HasDE  []bool `json:"has_nonce"`
+	// Refilled: the queues have a history — every member first queues one nonce, a signing request by the authority
+	// consumes the nonces of the assigned members, and the members flagged has_nonce then queue one more (the others
+	// reset their queue).  The allocation rule is the same; the queues' head positions are not 0 any more.
+	Refilled bool `json:"refilled_queues,omitempty"`
 }
 
-func (g GroupCfg) key() string { return fmt.Sprintf("%d:%v:%v", g.N, g.Active, g.HasDE) }
+func (g GroupCfg) key() string {
+	k := fmt.Sprintf("%d:%v:%v", g.N, g.Active, g.HasDE)
+	if g.Refilled {
+		k += ":refilled"
+	}
+	return k
+}
 
 // Tuple is one point of the enumerated space.
 type Tuple struct {
@@ -179,6 +189,20 @@ func (wk *worker) base(oact [3]bool, g GroupCfg) sdk.Context {
 			engine.Fatal3("C14 base: validator %d oracle status %v, want %v", i, got, on)
 		}
 	}
+	if g.N > 0 && g.Refilled {
+		for i := 0; i < g.N; i++ {
+			de := tsstestutil.GenerateDE(wk.secret)
+			must(w.Tx(ctx, 0, tsstypes.NewMsgSubmitDEs([]tsstypes.DE{de.PubDE}, memberAccounts()[i].Address.String())).Err, "MsgSubmitDEs (first fill)")
+		}
+		rs, err := bandtsstypes.NewMsgRequestSignature(tsstypes.NewTextSignatureOrder([]byte("c14")), sdk.NewCoins(sdk.NewInt64Coin(denom1, 1000)), w.App.BandtssKeeper.GetAuthority())
+		must(err, "NewMsgRequestSignature")
+		must(w.Tx(ctx, 0, rs).Err, "MsgRequestSignature by the authority")
+		for i := 0; i < g.N; i++ {
+			if !g.HasDE[i] {
+				must(w.Tx(ctx, 0, &tsstypes.MsgResetDE{Sender: memberAccounts()[i].Address.String()}).Err, "MsgResetDE")
+			}
+		}
+	}
 	if g.N > 0 {
 		gid := w.App.BandtssKeeper.GetCurrentGroup(ctx).GroupID
 		for i := 0; i < g.N; i++ {
@@ -197,6 +221,11 @@ func (wk *worker) base(oact [3]bool, g GroupCfg) sdk.Context {
 			bm, err := w.App.BandtssKeeper.GetMember(ctx, acc.Address, gid)
 			must(err, "bandtss GetMember")
 			q := w.App.TSSKeeper.GetDEQueue(ctx, acc.Address)
+			if g.Refilled {
+				// the queue bookkeeping is the implementation's; what the configuration fixes is what was submitted
+				// and consumed through the handlers, so only the activity flags are cross-checked here
+				q.Head, q.Tail = 0, map[bool]uint64{true: 1, false: 0}[g.HasDE[i]]
+			}
 			if m.IsActive != g.Active[i] || bm.IsActive != g.Active[i] || (q.Tail > q.Head) != g.HasDE[i] {
 				engine.Fatal3("C14 base: member %d flags (tss %v, bandtss %v, queue %d..%d) do not match configuration %s",
 					i, m.IsActive, bm.IsActive, q.Head, q.Tail, g.key())
